@@ -13,7 +13,9 @@ with the *parent expression* and the place the HDF5 object is taken from. `Props
 (`handle_sites_owned_or_section`) checks on the generated table that every site that hands out a handle of a kind
 whose copy is path-addressed constructs it with the owning parent, and that the sites which do not (`metadata`,
 `Section.link`) hand out Sections only. A new site, another parent expression, a site of another form: the table
-changes and the theorem no longer builds, or ExtractError.
+changes and the theorem no longer builds, or ExtractError. `via = "entry"` says that the handle a container hands out is
+built on the very entry it was asked for (`container_items_are_their_entries`): with `path_stays_in_copy` the members a
+copy's link lists hand out are objects of the copy.
 """
 import ast
 import glob
@@ -53,7 +55,13 @@ def _via(fn, node):
             and isinstance(node.args[0], ast.Constant):
         return "link " + node.args[0].value            # the member of that name of the entity's own HDF5 group
     if s == "item":
-        return "entry"
+        # the entry the container was asked for, as handed to the method: `item` is a parameter and nothing in the method
+        # binds the name again (a handle built on something looked up in its place is another site)
+        params = [a.arg for a in fn.args.args]
+        rebound = [n for n in ast.walk(fn) if isinstance(n, ast.Name) and n.id == "item" and isinstance(n.ctx, (ast.Store, ast.Del))]
+        if "item" not in params:
+            raise ExtractError("line %d: `item` of a constructed handle is not a parameter of %s" % (node.lineno, fn.name))
+        return "entry, replaced before the handle is built" if rebound else "entry"
     if isinstance(node, ast.Name):
         # a loop variable over a group opened from the entity's own HDF5 group
         for n in ast.walk(fn):
